@@ -600,8 +600,38 @@ func c11Diff(got, want []Ev) string {
 	return ""
 }
 
+// c11Reuse is what a caller may do with a tag map once NewTestScope / Tagged has
+// returned (typically one map updated in a loop): every value is overwritten, one
+// key is removed and another added. A scope's tags are fixed at derivation time
+// ("one entry per metric, keyed by its full name and tags"), so nothing the caller
+// does to its own map afterwards may show in a snapshot.
+func c11Reuse(m map[string]string) {
+	if m == nil {
+		return
+	}
+	first := true
+	for k := range m {
+		if first && len(m) > 1 {
+			delete(m, k)
+			first = false
+			continue
+		}
+		m[k] = "reused-by-caller"
+	}
+	m["caller"] = "mutated"
+}
+
+// c11Tagged derives sc.Tagged(m) from a map owned by the caller, which re-uses it right away.
+func c11Tagged(sc tally.Scope, m map[B]B) tally.Scope {
+	own := tagsOf(m)
+	out := sc.Tagged(own)
+	c11Reuse(own)
+	return out
+}
+
 func c11NewScope(c *c11Case) tally.TestScope {
 	tags := tagsOf(c.Tags)
+	defer c11Reuse(tags)
 	if c.Shards == 0 {
 		return tally.NewTestScope(string(c.Prefix), tags)
 	}
@@ -714,7 +744,7 @@ func c11Run(c *c11Case) (in, obs []Ev, pred, fail string) {
 			var sc tally.Scope = ts
 			for _, st := range recv {
 				if st.T {
-					sc = sc.Tagged(tagsOf(st.M))
+					sc = c11Tagged(sc, st.M)
 				} else {
 					sc = sc.SubScope(string(st.N))
 				}
@@ -752,7 +782,7 @@ func c11Run(c *c11Case) (in, obs []Ev, pred, fail string) {
 		var sc tally.Scope = ts
 		for _, st := range o.P {
 			if st.T {
-				sc = sc.Tagged(tagsOf(st.M))
+				sc = c11Tagged(sc, st.M)
 			} else {
 				sc = sc.SubScope(string(st.N))
 			}
@@ -878,7 +908,7 @@ func c11Conc(ctx *Ctx, c *c11Case) {
 	tg := []*target{
 		mk(ts, string(c.Prefix), rootTags),
 		mk(ts.SubScope("s"), c11Fqn(string(c.Prefix), "s"), rootTags),
-		mk(ts.Tagged(map[string]string{"x": "1"}), string(c.Prefix), withX),
+		mk(c11Tagged(ts, map[B]B{"x": "1"}), string(c.Prefix), withX),
 	}
 	var wg sync.WaitGroup
 	for w := 0; w < c.Workers; w++ {
@@ -1008,7 +1038,7 @@ func c11Class(c *c11Case) string {
 func init() {
 	props["C11"] = func(ctx *Ctx) {
 		ctx.Header("SnapshotCorr")
-		ctx.Res.Rule = "case = (registry shard count, root prefix and tags, history of record / get / Close / Snapshot operations addressed by derivation paths, Snapshot being called on the test scope or on any scope derived from it); generated from the seed; non-trivial = at least one snapshot with at least two entries; distinct by history hash. Streams dup / delim / dot replay the known findings; conc = snapshots concurrent with recording (bounds only)"
+		ctx.Res.Rule = "case = (registry shard count, root prefix and tags, history of record / get / Close / Snapshot operations addressed by derivation paths, Snapshot being called on the test scope or on any scope derived from it; every tag map handed to NewTestScope / Tagged is overwritten by the caller as soon as the call returns); generated from the seed; non-trivial = at least one snapshot with at least two entries; distinct by history hash. Streams dup / delim / dot replay the known findings; conc = snapshots concurrent with recording (bounds only)"
 		one := func(c *c11Case) {
 			if c.Stream == "conc" {
 				c11Conc(ctx, c)
